@@ -90,6 +90,20 @@ def synchronize_terminal_measurements(
         for i, op in find_terminal_measurements(circuit)
         if set(op.tags).isdisjoint(context.tags_to_ignore)
     ]
+
+    def key_is_measured_again(i: int, op: cirq.Operation) -> bool:
+        # Moving `op` behind another measurement of the same key would exchange the
+        # records of that key.
+        keys = protocols.measurement_key_objs(op)
+        return any(
+            other is not op and not keys.isdisjoint(protocols.measurement_key_objs(other))
+            for moment in circuit[i:]
+            for other in moment
+        )
+
+    terminal_measurements = [
+        (i, op) for i, op in terminal_measurements if not key_is_measured_again(i, op)
+    ]
     ret = circuit.unfreeze(copy=True)
     if not terminal_measurements:
         return ret
